@@ -389,6 +389,30 @@ def t_nested():
     return stats
 
 
+# ------------------------------------------------------------------ large documents
+
+def t_long():
+    """arrays of 1000 elements, objects of 300 members, depth 99: values, order, paths and parts through both APIs"""
+    from ..gen import longq
+    stats = Stats()
+    loop = asyncio.new_event_loop()
+    rng = random.Random(13)
+    n = 0
+    try:
+        for di, doc in enumerate(longq.long_docs()):
+            for q in ("$[*]", "$.*", "$..*", "$.a[*]", "$.b[*].a", "$[::-1]", "$[::7]", "$[-70:]", "$[63:67]", "$..[64,65,-1]", "$[?@ > 990]", "$.b[?@.b == 2].a",
+                      "$..a", "$[*,*]", "$[~]", "$.a[?@ in [1, 64, 65, 999]]", "$[?# > 63]", "$ | $[64]", "$[*] & $[65:70]"):
+                for variant in ("plain", "wrapped"):
+                    want = judge(stats, loop, q, doc, None, variant, rng)
+                    n += 1
+                if want is not None and want[0] == "ok" and len(want[1]) > 64:
+                    stats.nt("long", q, di)
+    finally:
+        loop.close()
+    stats.subspaces.append({"name": "19 queries x 6 large or deep documents x {plain, async-getter}", "size": n, "exhaustive": True})
+    return stats
+
+
 # ------------------------------------------------------------------ one compiled query, several documents, interleaved
 
 
@@ -558,7 +582,7 @@ def t_errors():
 
 
 def tasks(tier, seed):
-    ts = [{"name": "matrix", "fn": "t_matrix"}, {"name": "context", "fn": "t_context"}, {"name": "nested", "fn": "t_nested"}, {"name": "errors", "fn": "t_errors"}]
+    ts = [{"name": "matrix", "fn": "t_matrix"}, {"name": "context", "fn": "t_context"}, {"name": "nested", "fn": "t_nested"}, {"name": "long", "fn": "t_long"}, {"name": "errors", "fn": "t_errors"}]
     for k in range(4):
         ts.append({"name": "shared-%d" % k, "fn": "t_shared", "kw": {"seed": mix(seed, ID, "s", k), "n": 500 if tier == "quick" else 8000}})
     n = 1200 if tier == "quick" else 20000
